@@ -18,7 +18,7 @@ INT_RINGS = [s + "_" + c for s, cs in [("i8", ["i8", "u8", "i16", "u16"]), ("u8"
 FLT_RINGS = ["f_f", "f_d", "d_d"]
 BAL_RINGS = ["bi32", "bi64", "bf", "bd"]
 EXT_RINGS = ["ef", "ed"]
-BIG_RINGS = ["zz", "ru6_6", "ru6_7", "ru7_7", "ru7_8", "ru8_8"]
+BIG_RINGS = ["zz", "ru6_6", "ru6_7", "ru7_7", "ru7_8", "ru8_8", "ru8_9"]
 ALL_RINGS = INT_RINGS + FLT_RINGS + BAL_RINGS + EXT_RINGS + BIG_RINGS
 
 OPS2 = ["add", "addin", "sub", "subin", "mul", "mulin"]
@@ -266,11 +266,24 @@ def write_params(info):
     """coq/C03/Params.v: the advertised bounds exactly as the compiled implementation reports them"""
     lines = ["(* GENERATED by checks/C03.py from Ring::minCardinality()/maxCardinality() of /repo's current headers",
              "   (printed by harness/c03_modular.C).  Do not edit: rewritten on every run. *)",
-             "From Coq Require Import ZArith.", "Local Open Scope Z_scope."]
+             "From Coq Require Import ZArith List.", "Import ListNotations.", "Local Open Scope Z_scope."]
     for ring in ALL_RINGS:
         if ring in info and info[ring][1] > 0:
             lines.append("Definition min_%s : Z := %d." % (ring, info[ring][0]))
             lines.append("Definition max_%s : Z := %d." % (ring, info[ring][1]))
+    # (bits of Storage_t, signed?, bits of Compute_t, minCardinality, maxCardinality) of every integral Modular<S,C>
+    rows = []
+    for ring in INT_RINGS:
+        s, c = ring.split("_")
+        rows.append("(%d, %s, %d, min_%s, max_%s)" % (ITY[s][0], "true" if ITY[s][1] else "false", ITY[c][0], ring, ring))
+    lines.append("Definition advertised_int : list (Z * bool * Z * Z * Z) :=\n  [" + ";\n   ".join(rows) + "].")
+    # (element bits w = 2^K, Compute_t = ruint<K+1>?, min, max) of every Modular<ruint<K>,ruint<K'>>
+    rows = []
+    for ring in BIG_RINGS:
+        if ring.startswith("ru") and ring in info:
+            k, k2 = int(ring[2]), int(ring.split("_")[1])
+            rows.append("(%d, %s, min_%s, max_%s)" % (1 << k, "true" if k2 > k else "false", ring, ring))
+    lines.append("Definition advertised_ru : list (Z * bool * Z * Z) :=\n  [" + ";\n   ".join(rows) + "].")
     txt = "\n".join(lines) + "\n"
     return vf.write_if_changed(os.path.join(vf.coq_dir(AREA), "Params.v"), txt)
 
@@ -288,6 +301,37 @@ def load_known_with_fragment():
 
 _orig_load_known = vf.load_known
 vf.load_known = load_known_with_fragment
+
+
+def run_parallel(binary, lines, timeout=1500, nproc=8):
+    """run a line-protocol driver on `lines`, split into contiguous chunks over nproc processes (order kept)"""
+    import subprocess
+    if len(lines) < 2000:
+        return vf.run_lines(binary, "".join(l + "\n" for l in lines), timeout=timeout)
+    n = (len(lines) + nproc - 1) // nproc
+    procs = []
+    for k in range(0, len(lines), n):
+        pr = subprocess.Popen([binary], stdin=subprocess.PIPE, stdout=subprocess.PIPE, stderr=subprocess.PIPE, universal_newlines=True)
+        procs.append((pr, "".join(l + "\n" for l in lines[k:k + n])))
+    import threading
+    res = [None] * len(procs)
+
+    def work(i):
+        pr, txt = procs[i]
+        try:
+            o, e = pr.communicate(txt, timeout=timeout)
+            res[i] = (pr.returncode, o.splitlines(), e)
+        except subprocess.TimeoutExpired:
+            pr.kill()
+            res[i] = (124, [], "[timeout]")
+    ths = [threading.Thread(target=work, args=(i,)) for i in range(len(procs))]
+    for t in ths:
+        t.start()
+    for t in ths:
+        t.join()
+    rc = max(r[0] for r in res)
+    out = [l for r in res for l in r[1]]
+    return rc, out, "".join(r[2] for r in res)
 
 
 def main(tier, replay=None):
@@ -360,7 +404,7 @@ def main(tier, replay=None):
     midx = [i for i, m in enumerate(mlines) if m is not None]
     mout = {}
     if drv and midx:
-        rc, mo, merr = vf.run_lines(drv, "".join(mlines[i] + "\n" for i in midx), timeout=1500)
+        rc, mo, merr = run_parallel(drv, [mlines[i] for i in midx], timeout=1500)
         if rc != 0 or len(mo) != len(midx):
             chk.broke("model driver failed (rc=%s, %d/%d lines)" % (rc, len(mo), len(midx)), merr[-2000:])
         else:
